@@ -113,6 +113,33 @@ class Gen:
                 pr.add_goal(self.bexp([], 2, allow_quant=True))
             except Exception:  # noqa
                 pass
+        if self.p(F.get("trajectory", 0.0)):
+            from unified_planning.shortcuts import Always, Sometime, AtMostOnce, SometimeBefore, SometimeAfter
+            for _ in range(rng.randint(1, 2)):
+                k = rng.random()
+                a, b = self.bexp([], 1, allow_quant=False), self.bexp([], 1, allow_quant=False)
+                if F.get("sane"):
+                    o = rng.choice(self.objs)
+                    a = rng.choice([self.fl["q"](), self.fl["p"](o), Not(self.fl["p"](o))])
+                    b = rng.choice([self.fl["q"](), Not(self.fl["q"]()), self.fl["p"](rng.choice(self.objs))])
+                try:
+                    if k < 0.25:
+                        tc = Always(a)
+                    elif k < 0.45:
+                        tc = Sometime(a)
+                    elif k < 0.6:
+                        tc = AtMostOnce(a)
+                    elif k < 0.8:
+                        tc = SometimeBefore(a, b)
+                    else:
+                        tc = SometimeAfter(a, b)
+                    if self.p(0.2):
+                        v = Variable("tv", self.T)
+                        tc2 = {0: Always, 1: Sometime}[rng.randint(0, 1)](self.fl["p"](v))
+                        tc = Forall(tc2, v)
+                    pr.add_trajectory_constraint(tc)
+                except Exception:  # noqa
+                    pass
         return pr
 
     def _compatible(self, t_formal, t_actual):
@@ -132,8 +159,8 @@ class Gen:
         return rng.choice([o for o in self.objs if self._compatible(t, o.type)])
 
     # ---- expressions
-    def oexp(self, scope, t=None):
-        """object-valued expression of (a subtype of) type t"""
+    def oexp(self, scope, t=None, depth=2):
+        """object-valued expression of (a subtype of) type t (object fluents nested at most `depth` deep)"""
         t = t or self.T
         rng = self.rng
         cands = [o for o in self.objs if self._compatible(t, o.type)]
@@ -141,8 +168,8 @@ class Gen:
         r = rng.random()
         if ps and r < 0.55:
             return rng.choice(ps)
-        if "loc" in self.fl and r < 0.7 and t == self.T:
-            return self.fl["loc"](self.oexp(scope))
+        if "loc" in self.fl and r < 0.7 and t == self.T and depth > 0:
+            return self.fl["loc"](self.oexp(scope, depth=depth - 1))
         return rng.choice(cands)
 
     def nexp(self, scope, depth, real=False):
@@ -178,9 +205,15 @@ class Gen:
         if r < 0.8 and any(k in self.fl for k in ("n", "m", "u")):
             real = "u" in self.fl and self.p(0.3)
             op = rng.choice([LE, LT, Equals])
-            return op(self.nexp(scope, 1, real), self.nexp(scope, 1, real))
-        if r < 0.92:
-            return Equals(self.oexp(scope), self.oexp(scope))
+            a, b = self.nexp(scope, 1, real), self.nexp(scope, 1, real)
+            if self.features.get("sane") and (a == b or (a.is_constant() and b.is_constant())):
+                return self.fl["q"]()
+            return op(a, b)
+        if r < 0.92 or self.features.get("sane"):
+            a, b = self.oexp(scope), self.oexp(scope)
+            if self.features.get("sane") and a == b:
+                return self.fl["p"](a)
+            return Equals(a, b)
         return rng.choice([TRUE(), FALSE()])
 
     def bexp(self, scope, depth, allow_quant=True):
@@ -256,6 +289,8 @@ class Gen:
             kw = {"forall": (v,)} if forall else {}
             if f.type.is_bool_type():
                 val = rng.choice([TRUE(), FALSE(), TRUE(), self.bexp(sc, 1, allow_quant=False)])
+                if F.get("sane"):
+                    val = rng.choice([TRUE(), FALSE()])
                 a.add_effect(target, val, cond, **kw)
             elif f.type.is_int_type() or f.type.is_real_type():
                 real = f.type.is_real_type()
